@@ -6,7 +6,7 @@ From GV Require Import Lpg.Model Lpg.Classes Lpg.ProofsBase Lpg.ProofsInv Lpg.Pr
 Open Scope Z_scope.
 
 Definition idx_matches (s : state) (c : Z * value) : option (list Z) :=
-  match zget (pidx s) (fst c) with
+  match (if has_float_special (snd c) then None else zget (pidx s) (fst c)) with
   | Some ix => Some (match vget ix (snd c) with Some ns => ns | None => [] end)
   | None => None
   end.
@@ -30,7 +30,7 @@ Lemma best_start_spec s conds : forall i best,
 Proof.
   induction conds as [|c r IH]; intros i best; cbn [best_start].
   - destruct best as [[j m]|]; [left; reflexivity|split; [reflexivity|intros c []]].
-  - unfold idx_matches in *. destruct (zget (pidx s) (fst c)) as [ix|] eqn:E.
+  - unfold idx_matches in *. destruct (if has_float_special (snd c) then None else zget (pidx s) (fst c)) as [ix|] eqn:E.
     + set (m := match vget ix (snd c) with Some ns => ns | None => [] end) in *.
       destruct m as [|m0 mr] eqn:M.
       * exists c. split; [left; reflexivity|]. rewrite E. fold m. rewrite M. reflexivity.
@@ -97,20 +97,22 @@ Proof.
 Qed.
 
 Lemma idx_matches_find s c m : idx_matches s c = Some m -> find_by_prop s (fst c) (snd c) = m.
-Proof. unfold idx_matches, find_by_prop. destruct (zget (pidx s) (fst c)); [intros H; injection H as <-; reflexivity|discriminate]. Qed.
+Proof.
+  unfold idx_matches, find_by_prop. destruct (has_float_special (snd c)); [discriminate|].
+  destruct (zget (pidx s) (fst c)); [intros H; injection H as <-; reflexivity|discriminate].
+Qed.
 
 Lemma find_by_props_ok s conds : BaseInv s -> PropsLive s -> IdxInv s ->
-  (forall c, In c conds -> has_float_special (snd c) = false) ->
   forall n, In n (find_by_props s conds) <-> In n (scan_by_props s conds).
 Proof.
-  intros B PL IX Hq n. rewrite (In_scan_by_props s conds n B). unfold find_by_props.
+  intros B PL IX n. rewrite (In_scan_by_props s conds n B). unfold find_by_props.
   destruct conds as [|c0 r] eqn:EC.
   - rewrite (In_node_ids s n B). split; [intros H; split; [exact H|intros c []]|intros [H _]; exact H].
   - rewrite <- EC in *. pose proof (best_start_spec s conds 0 None) as BS.
     destruct (best_start s conds 0 None) as [[[j m]|]|].
     + destruct BS as [BS|[c [A M]]]; [discriminate BS|].
       pose proof (idx_matches_find s c m M) as F.
-      destruct (index_ok_inv s (fst c) (snd c) B PL IX (Hq c (at_idx_In _ _ _ _ A))) as [_ OK].
+      destruct (index_ok_inv s (fst c) (snd c) B PL IX) as [_ OK].
       rewrite F in OK. split.
       * intros H. assert (Hm : In n m) by (eapply filter_conds_sub; exact H).
         apply OK in Hm. apply (cond_holds_scan s c n B) in Hm. destruct Hm as [L CH]. split; [exact L|].
@@ -118,7 +120,7 @@ Proof.
       * intros [L ALL]. pose proof (proj2 (filter_conds_at s conds 0 j c A m n)) as R.
         apply R. split; [|exact ALL]. apply OK. apply (cond_holds_scan s c n B). split; [exact L|apply ALL; eapply at_idx_In; exact A].
     + destruct BS as [_ NI]. assert (A : at_idx conds 0 0 c0) by (rewrite EC; constructor).
-      destruct (index_ok_inv s (fst c0) (snd c0) B PL IX (Hq c0 (at_idx_In _ _ _ _ A))) as [_ OK].
+      destruct (index_ok_inv s (fst c0) (snd c0) B PL IX) as [_ OK].
       split.
       * intros H. assert (Hm : In n (find_by_prop s (fst c0) (snd c0))) by (eapply filter_conds_sub; exact H).
         apply OK in Hm. apply (cond_holds_scan s c0 n B) in Hm. destruct Hm as [L CH]. split; [exact L|].
@@ -127,11 +129,11 @@ Proof.
         apply OK. apply (cond_holds_scan s c0 n B). split; [exact L|apply ALL; eapply at_idx_In; exact A].
     + destruct BS as [c [A M]]. split; [intros []|]. intros [L ALL]. exfalso.
       pose proof (idx_matches_find s c [] M) as F.
-      destruct (index_ok_inv s (fst c) (snd c) B PL IX (Hq c A)) as [_ OK]. rewrite F in OK.
+      destruct (index_ok_inv s (fst c) (snd c) B PL IX) as [_ OK]. rewrite F in OK.
       apply (OK n). apply (cond_holds_scan s c n B). split; [exact L|apply ALL; exact A].
 Qed.
 
 Lemma find_by_props_ok_l b ops conds :
-  hist_sets_dead (init b) ops = false -> (forall c, In c conds -> has_float_special (snd c) = false) ->
+  hist_sets_dead (init b) ops = false ->
   let s := run (init b) ops in forall n, In n (find_by_props s conds) <-> In n (scan_by_props s conds).
-Proof. intros H Hq. cbv zeta. destruct (PI_run b ops H) as (B & P & I). apply find_by_props_ok; assumption. Qed.
+Proof. intros H. cbv zeta. destruct (PI_run b ops H) as (B & P & I). apply find_by_props_ok; assumption. Qed.
